@@ -66,7 +66,7 @@ def _mc(ctx):
                 ('gcspec', dict(owners=3, specs=3), True), ('gcvip', dict(owners=4, hosts=2), False)]
     need = dict(vip=['VipGC', 'VipFree', 'VipAlloc', 'VipAllocPicked', 'OwnerDisappears', 'Initialize'], rule=['RuleGC', 'RuleCreate', 'RuleUnlink', 'Initialize'],
                 spec=['SpecGC', 'SpecCreate', 'SpecUnlink', 'SpecUnlinkAll', 'Initialize'],
-                svc=['Synchronize', 'SvcStart', 'OnDelete', 'OnCreate', 'Import'], mgr=[],
+                svc=['Synchronize', 'SvcStart', 'OnDelete', 'OnCreate', 'OnCreateFail', 'Import'], mgr=[],
                 gcrule=['GcBegin', 'GcList', 'GcVisit', 'GcEnd', 'RuleCreate', 'OwnerAppears'],
                 gcvip=['GcBegin', 'GcList', 'GcVisit', 'GcEnd', 'VipAlloc', 'OwnerAppears'],
                 gcspec=['GcBegin', 'GcList', 'GcVisit', 'GcEnd', 'SpecCreate', 'OwnerAppears'])
